@@ -2,7 +2,8 @@
 from .common import *
 from . import c01
 from ..oracle import INV_PROP, RaftOracle, LEADER
-from ..boot import priv, M
+from ..boot import priv, M, HarnessError
+from ..workload import KVApp
 
 PROP = 'C20'
 LEVEL = 'exploration'
@@ -123,11 +124,45 @@ class C20Oracle(RaftOracle):
         return s
 
 
+class C20App(KVApp):
+    def apply_event(self, world, ev):
+        if ev[1] == 'maddx':
+            # an operator's "ensure membership" retry: add a node that is a member already (answered REQUEST_DENIED)
+            h = world.hosts[ev[2]]
+            if h.node is None:
+                return 'down'
+            world.cur = h.idx
+            try:
+                h.node.addNodeToCluster(world.hosts[ev[3]].addr, callback=lambda res, err: None)
+            except Exception as e:
+                return 'exc:' + type(e).__name__
+            return ('ok', h.idx)
+        raise HarnessError('unknown event %r' % (ev,))
+
+
 class C20Sched(Scheduler):
     def __init__(self, world, rng, cfg):
         Scheduler.__init__(self, world, rng, cfg)
         self.cut_T = None
         self.cut_leader = None
+
+    def extra_choices(self, items):
+        if self.s.get('w_maddx', 0) > 0:
+            ups = [h.idx for h in self.w.hosts if h.node is not None and not h.readonly]
+            if len(ups) >= 1:
+                items.append((self.s['w_maddx'], 'maddx'))
+
+    def build_extra(self, k, dt):
+        if k == 'maddx':
+            w, rng = self.w, self.rng
+            ups = [h.idx for h in w.hosts if h.node is not None and not h.readonly]
+            leaders = [i for i in ups if priv(w.hosts[i].node, 'SyncObj', 'raftState') == LEADER]
+            via = rng.choice(leaders) if leaders and rng.random() < 0.8 else rng.choice(ups)
+            others = [h.idx for h in w.hosts if not h.readonly and h.idx != via]
+            if not others:
+                return [dt, 'nop']
+            return [dt, 'maddx', via, rng.choice(others)]
+        return Scheduler.build_extra(self, k, dt)
 
     def next_event(self):
         ev = Scheduler.next_event(self)
@@ -166,7 +201,14 @@ class C20Spec(c01.C01Spec):
             s['dts'] = [0.0, 0.005, 0.02, 0.1, 0.3]
         # read-only nodes answer the leader's heartbeats too: they must not count as voters heard from
         cfg['n_ro'] = rng.choice([0, 0, 1, 2])
+        if rng.random() < 0.3:
+            # membership API in use: requests to add nodes that are members already keep arriving
+            conf['dynamicMembershipChange'] = True
+            s['w_maddx'] = rng.choice([0.05, 0.2])
         return cfg
+
+    def make_app(self, cfg):
+        return C20App(cfg)
 
     def make_oracle(self, world, app):
         return C20Oracle(world, app)
